@@ -206,6 +206,17 @@ def fscale {R : Type} [Div R] [Neg R] (F : RealFn R) (ns : Nat) (si : R) (oneSid
   if oneSided then fsc
   else fsc ++ (pySliceRev fsc (-2 + Int.ofNat (ns % 2)) 0).map fun v => -v
 
+/-- number of non-negative frequency bins of `fscale(ns)` -/
+def fscaleCount (ns : Nat) : Nat := ns / 2 + 1
+
+/-- start of the reversed slice that supplies the negative frequencies -/
+def fscaleStart (ns : Nat) : Int := -2 + Int.ofNat (ns % 2)
+
+theorem fscale_eq_named {R : Type} [Div R] [Neg R] (F : RealFn R) (ns : Nat) (si : R) (oneSided : Bool) :
+    fscale F ns si oneSided =
+      (let fsc := (List.range (fscaleCount ns)).map fun k => F.ofNat k / F.ofNat ns / si
+       if oneSided then fsc else fsc ++ (pySliceRev fsc (fscaleStart ns) 0).map fun v => -v) := rfl
+
 /-! ### `fcn_cosine`, `_freq_vector`, `_freq_filter`, `lp`, `hp`, `bp`
 
     def _cos(x): return (1 - cos((x - bounds[0]) / (bounds[1] - bounds[0]) * pi)) / 2
